@@ -49,18 +49,41 @@ func c16Resolve(c *Ctx, px string) *c16Fns {
 			// gate on every success return (in Decode or through the helper that verifies)
 			for _, e := range ana.Exits(dec) {
 				if !e.Panic && b.Of(e.Results[2], e.Instr).Is("nil") {
-					r.Check(c.passes(b, e.Instr.Block(), vpat), px+".verify-gate.decode", c.ipos(e.Instr), "every success return of Decode passes verify(lower hrp, all decoded symbols incl. the last six) == true")
+					// the gate must be this routine (the one decided below), not any call with the same arguments
+					spec := "call<" + out.verify.String() + ">(slice(" + lower + ", 0, " + hl + "), " + data + ")"
+					r.Check(c.passes(b, e.Instr.Block(), spec), px+".verify-gate.decode", c.ipos(e.Instr), "every success return of Decode passes verify(lower hrp, all decoded symbols incl. the last six) == true")
 				}
 			}
 		}
 	}
 	if out.verify == nil {
-		r.Undec(px+".verify-gate.decode", c.P.Pos(dec.Pos()), "no checksum verification over (lower-cased hrp, all data symbols) gates Decode")
-		return nil
+		// the verification written out at the gate: polymod(expand(hrp) ‖ data) == 1
+		ipat := "bin<==>(call<*>(concat(call<*>(slice(" + lower + ", 0, " + hl + ")), " + data + ")), 1)"
+		for _, ce := range deepEdges(c, b) {
+			if _, ok := ana.Match(ipat, ce.Lit); !ok || out.polymod != nil {
+				continue
+			}
+			out.polymod = calleeOf(ce.Lit.Arg(0))
+			out.expand = calleeOf(ce.Lit.Arg(0).Arg(0).Arg(0))
+			for _, e := range ana.Exits(dec) {
+				if !e.Panic && b.Of(e.Results[2], e.Instr).Is("nil") {
+					r.Check(c.passes(b, e.Instr.Block(), ipat), px+".verify-gate.decode", c.ipos(e.Instr), "every success return of Decode passes polymod(expand(lower hrp) ‖ all decoded symbols incl. the last six) == 1")
+				}
+			}
+			r.OK(px+".verify-gate.term", c.P.Pos(ce.Pos()), "verification = (polymod(expand(hrp) ‖ data) == 1) and nothing else, written at the gate")
+		}
+		if out.polymod == nil || out.expand == nil {
+			r.Undec(px+".verify-gate.decode", c.P.Pos(dec.Pos()), "no checksum verification over (lower-cased hrp, all data symbols) gates Decode")
+			return nil
+		}
 	}
-	r.Fn(ana.ShortFunc(out.verify))
+	var verifyExits []ana.Exit
+	if out.verify != nil {
+		r.Fn(ana.ShortFunc(out.verify))
+		verifyExits = ana.Exits(out.verify)
+	}
 	vb := ana.NewBuilder(c.P, out.verify)
-	for _, e := range ana.Exits(out.verify) {
+	for _, e := range verifyExits {
 		if e.Panic {
 			r.Viol(px+".verify-gate.term", c.ipos(e.Instr), "panic in verify")
 			continue
@@ -318,17 +341,27 @@ func c16Create(c *Ctx, fns *c16Fns) {
 		return
 	}
 	// find the checksum creation helper: a repo callee of Encode (other than those already known) that calls polymod
-	for _, ci := range ana.Calls(enc) {
-		cal := ana.StaticRepoCallee(ci.Common())
-		if cal == nil || cal == fns.verify {
-			continue
-		}
-		for _, cj := range ana.Calls(cal) {
-			if ana.StaticRepoCallee(cj.Common()) == fns.polymod {
+	var scan func(from *ssa.Function, depth int)
+	scan = func(from *ssa.Function, depth int) {
+		for _, ci := range ana.Calls(from) {
+			cal := ana.StaticRepoCallee(ci.Common())
+			if cal == nil || cal == fns.verify || cal == from || cal.Blocks == nil {
+				continue
+			}
+			direct := false
+			for _, cj := range ana.Calls(cal) {
+				if ana.StaticRepoCallee(cj.Common()) == fns.polymod {
+					direct = true
+				}
+			}
+			if direct {
 				fns.create = cal
+			} else if depth < 1 && cal.Pkg == enc.Pkg {
+				scan(cal, depth+1) // Encode's data-part assembly moved into a helper
 			}
 		}
 	}
+	scan(enc, 0)
 	if fns.create == nil {
 		r.Undec("C16.verify-gate.create", c.P.Pos(enc.Pos()), "checksum creation routine (a callee of Encode using the same polymod) not found")
 		return
